@@ -296,11 +296,40 @@ void hash_rec(void* out, size_t outlen, const void* in, size_t inlen) {
 
 // ------------------------------------------------------------------ commands
 struct Objects; static void dirty_objects(Objects& o);
+// Objects that contain the group identity (reachable through the API: a re-randomisation that cancels, an unmarshalled identity
+// element): sel's bits choose the elements, the identity comes in the representations group arithmetic produces -
+// the constant, P + (-P) (z = 0 with whatever x, y the formulas leave), and z = 0 with random x, y.
+template <typename G> static void put_identity(G& dst, unsigned form) {
+    if (form % 3 == 0) { dst.copy(G::zero); return; }
+    G p; BigInt<256> k; rng_cb(k.bytes, 32); p.multiply_doubleadd(G::one, k);
+    if (form % 3 == 1) { G n; n.negate(p); dst.add(p, n); return; }
+    dst.copy(p); dst.z.copy(G::zero.z);
+}
+static void substitute_identity(Objects& o, unsigned long sel) {
+    unsigned f = (unsigned) (sel >> 16);
+    if (sel & 1) put_identity(*(G1*) &o.wm.g2alpha, f);
+    if (sel & 2) put_identity(*(G1*) &o.wsk.a0, f + 1);
+    if (sel & 4) put_identity(*(G2*) &o.wsk.a1, f + 2);
+    if ((sel & 8) && o.wsk.signatures) put_identity(*(G1*) &o.wsk.bsig, f);
+    if ((sel & 16) && o.wsk.l > 0) put_identity(*(G1*) &o.wsk.b[(sel >> 8) % (unsigned) o.wsk.l].hexp, f + 1);
+    if (sel & 32) put_identity(*(G2*) &o.wct.b, f);
+    if (sel & 64) put_identity(*(G1*) &o.wct.c, f + 2);
+    if (sel & 128) put_identity(*(G1*) &o.wsig.a0, f + 1);
+    if (sel & 256) put_identity(*(G2*) &o.wsig.a1, f);
+    if ((sel & 512) && o.wp.l > 0) put_identity(*(G1*) &o.wp.h[(sel >> 8) % (unsigned) o.wp.l], f + 2);
+    if (sel & 1024) put_identity(*(G1*) &o.wp.g3, f);
+    if ((sel & 2048) && o.wp.signatures) put_identity(*(G1*) &o.wp.hsig, f + 1);
+    if (sel & 4096) put_identity(*(G2*) &o.lp.sp, f);
+}
+
 static void cmd_gen(void) {
     int l = (int) argi(1); bool sig = argi(2) != 0; unsigned long mask = strtoul(arg(3), NULL, 10);
     rng_seed(strtoull(arg(4), NULL, 10));
     bool highfree = g_ntok > 5 && argi(5) != 0;
+    unsigned long idsel = g_ntok > 6 ? strtoul(arg(6), NULL, 10) : 0;
     Objects o; make_objects(o, l, sig, mask, highfree);
+    if (idsel & 0xffff) substitute_identity(o, idsel);
+#define BEHAVES(kind, a, b) ((idsel & 0xffff) ? true : roundtrip_behaves(kind, a, b))   // objects with substituted elements are not working keys
     for (int kind = 0; kind < NKIND; kind++) {
         for (int c = 1; c >= 0; c--) {
             size_t len = get_len(kind, o, c != 0);
@@ -316,13 +345,13 @@ static void cmd_gen(void) {
             Objects r; memset(&r, 0, sizeof r); dirty_objects(r);
             int sl = 0, sl2 = 0;
             int okc = do_unmarshal(kind, r, b1.p, len, c != 0, true, &sl);
-            bool eqc = okc == 1 && objects_equal(kind, o, r) && roundtrip_behaves(kind, o, r);
+            bool eqc = okc == 1 && objects_equal(kind, o, r) && BEHAVES(kind, o, r);
             size_t relen = okc == 1 ? get_len(kind, r, c != 0) : 0;
             bool resame = false;
             if (okc == 1 && relen == len) { Buf b3 = buf_alloc(len); do_marshal(kind, r, b3.p, c != 0); resame = memcmp(b3.p, b1.p, len) == 0; buf_free(b3); }
             Objects u; memset(&u, 0, sizeof u); dirty_objects(u);
             int oku = do_unmarshal(kind, u, b1.p, len, c != 0, false, &sl2);
-            bool equ = oku == 1 && objects_equal(kind, o, u) && roundtrip_behaves(kind, o, u);
+            bool equ = oku == 1 && objects_equal(kind, o, u) && BEHAVES(kind, o, u);
             int slots = kind == WPARAMS ? o.wp.l : (kind == WSK ? o.wsk.l : -3);
             printf("%s kind=%s c=%d len=%zu lenfn=%zu allwritten=%d setlen=%d slots=%d checked=%d equal=%d relen=%zu resame=%d unchecked=%d uequal=%d bytes=",
                    kind == 0 && c == 1 ? "" : "| ", KNAME[kind], c, len, lenfn, (int) allwritten, sl, slots, okc, (int) eqc, relen, (int) resame, oku, (int) equ);
@@ -405,12 +434,14 @@ static void cmd_unmseq(void) {
 }
 
 static void cmd_lq(void) {
-    // lq seed idhash(96 hex) keylen mode masterhex|-
+    // lq seed idhash(96 hex) keylen mode masterhex|- [encrypt-stream-hex|- [setup-stream-hex|-]]
+    // the optional streams are the first bytes the random source returns during the measured encrypt / during setup (then the PRNG)
     // mode 0 honest ; 1 decrypt with key of another identity ; 2 other master key ; 3 ciphertext replaced ; 4 id object of another identity at decrypt
     rng_seed(strtoull(arg(1), NULL, 10));
     embedded_pairing_lqibe_idhash_t h; unhex(arg(2), h.hash, 48);
     size_t keylen = (size_t) argu(3); int mode = (int) argi(4);
     embedded_pairing_lqibe_params_t p; embedded_pairing_lqibe_masterkey_t m; embedded_pairing_lqibe_id_t id; embedded_pairing_lqibe_secretkey_t sk; embedded_pairing_lqibe_ciphertext_t ct;
+    if (g_ntok > 7 && strcmp(arg(7), "-")) rng_script(arg(7));
     embedded_pairing_lqibe_setup(&p, &m, rng_cb);
     if (strcmp(arg(5), "-")) {
         // master scalar supplied by the caller (possibly >= r), through the marshalling interface; public key recomputed accordingly
@@ -433,6 +464,7 @@ static void cmd_lq(void) {
         g_nested.on = true;
     }
     g_hash_calls = 0; g_hash_slot = 0;
+    if (g_ntok > 6 && strcmp(arg(6), "-")) rng_script(arg(6));
     embedded_pairing_lqibe_encrypt(&ct, k1.p, keylen, &p, &id, hash_rec, rng_cb);
     embedded_pairing_lqibe_secretkey_t sk2 = sk; embedded_pairing_lqibe_id_t id2 = id; embedded_pairing_lqibe_ciphertext_t ct2 = ct;
     if (mode == 1 || mode == 4) {
